@@ -151,6 +151,23 @@ class _SubstNames(ast.NodeTransformer):
     def visit_Lambda(self, n):
         return n
 
+    def visit_Call(self, n):
+        self.generic_visit(n)
+        # f(*row) with the row a tuple / list display: its elements
+        if any(isinstance(a, ast.Starred) and isinstance(
+                a.value, (ast.Tuple, ast.List)) and not any(
+                    isinstance(e, ast.Starred) for e in a.value.elts)
+               for a in n.args):
+            args = []
+            for a in n.args:
+                if isinstance(a, ast.Starred) and isinstance(
+                        a.value, (ast.Tuple, ast.List)):
+                    args += list(a.value.elts)
+                else:
+                    args.append(a)
+            n.args = args
+        return n
+
 
 # ---------------------------------------------------------------------------
 CURRENT_LOOP = [None]
